@@ -6,11 +6,15 @@
     updater(p)   U1  `updateGroup` for every subscribed job of provider p (under `p.mu.RLock`, `targetsMtx`)
                  U2  non-blocking send on `triggerSend`                         (`pending := true`)
     sender       S1  timer tick: non-blocking receive from `triggerSend`        (needs `pending`)
-                 S2a `allGroups()` — evaluated *before* the `select` on `syncCh` (snapshot)
+                 S2a `allGroups()` — evaluated *before* the `select` on `syncCh`; it holds `m.mtx.RLock` for
+                     the whole loop but takes `targetsMtx` once PER PROVIDER, so the snapshot is not atomic:
+                     `s2begin` (take `m.mtx.RLock`, fix the provider list), then one `s2prov` per provider —
+                     updaters may run in between
                  S2b non-blocking send of the snapshot on the unbuffered `syncCh`: succeeds iff the consumer
                      is blocked in its receive; otherwise `triggerSend` is re-armed  (`pending := true`)
-    reload       `ApplyConfig` (holds `m.mtx` for its whole duration, so no snapshot can be taken inside it;
-                 it waits for the `cleaner` of every cancelled provider before returning): one atomic action
+    reload       `ApplyConfig` (holds `m.mtx.Lock` for its whole duration, so it excludes a snapshot in
+                 progress and vice versa; it waits for the `cleaner` of every cancelled provider before
+                 returning): one atomic action, enabled only while the sender is not inside `allGroups`
     consumer     `receive` (starts waiting on `SyncCh`), `leave` (gives up waiting)
 
   Go maps are partial functions here (`targets : (job, provider) → Option (source map)`); a source map is an
@@ -80,7 +84,8 @@ abbrev Snap := List (Job × List Group)
 inductive SenderPc
   | idle
   | took
-  | snapped (snap : Snap)
+  /-- inside `allGroups` (or just after it, `rest = []`): accumulated map, providers still to visit -/
+  | snapping (acc : Snap) (rest : List Provider)
 deriving DecidableEq, Repr, Inhabited
 
 abbrev Targets := Job × Pid → Option SrcMap
@@ -193,7 +198,8 @@ inductive Action
   | u1 (pid : Pid) (u : Upd)
   | u2 (pid : Pid)
   | s1
-  | s2snap
+  | s2begin
+  | s2prov
   | s2send
   | applyConfig (cfg : List (Job × List Cfg))
   | receive
@@ -221,17 +227,24 @@ def step (s : State) : Action → Option State
     if pid ∈ s.mid then some { s with mid := s.mid.erase pid, pending := true } else none
   | .s1 =>
     if s.sender = .idle ∧ s.pending = true then some { s with sender := .took, pending := false } else none
-  | .s2snap =>
-    if s.sender = .took then some { s with sender := .snapped (allGroups s) } else none
+  | .s2begin =>
+    if s.sender = .took then some { s with sender := .snapping [] s.providers } else none
+  | .s2prov =>
+    match s.sender with
+    | .snapping acc (p :: rest) => some { s with sender := .snapping (agProv s.targets acc p) rest }
+    | _ => none
   | .s2send =>
     match s.sender with
-    | .snapped snap =>
+    | .snapping snap [] =>
       if s.consumerReady then
         some { s with sender := .idle, consumerReady := false, delivered := snap, deliveries := s.deliveries + 1 }
       else
         some { s with sender := .idle, pending := true }
     | _ => none
-  | .applyConfig cfg => some (applyConfig s cfg)
+  | .applyConfig cfg =>
+    match s.sender with
+    | .snapping _ _ => none      -- `m.mtx` is read-locked by `allGroups`
+    | _ => some (applyConfig s cfg)
   | .receive => some { s with consumerReady := true }
   | .leave => some { s with consumerReady := false }
 
